@@ -312,12 +312,39 @@ def eval_call(ex, node, st, want):
             if old_cnt is None or new_cnt is None:
                 raise OutOfSubset('fresh() without allocation counter')
             return SV(T.BOOL, z3.And(x.t >= old_cnt, x.t < new_cnt))
+        if name == 'allocates':
+            # exactly n objects were allocated since the old state
+            n = ex.ev(node.args[0], st, T.INT)
+            if st.old is None:
+                raise OutOfSubset('allocates() outside a postcondition')
+            return SV(T.BOOL, st.heap[('$alloc', 'next')] == st.old.heap[('$alloc', 'next')] + n.t)
         if name == 'allocated':
             x = ex.ev(node.args[0], st)
             cnt = st.heap.get(('$alloc', 'next'))
             if cnt is None:
                 raise OutOfSubset('allocated() without allocation counter')
             return SV(T.BOOL, z3.And(x.t > 0, x.t < cnt))
+        if name == 'old_objects_unchanged':
+            # every object of the class that existed in the old state keeps the listed (or all) fields
+            cls = node.args[0].value
+            fields = [a.value for a in node.args[1:]] or list(S.CLASSES[cls].all_fields())
+            if st.old is None:
+                raise OutOfSubset('old_objects_unchanged() outside a postcondition')
+            old_cnt = st.old.heap.get(('$alloc', 'next'))
+            if old_cnt is None:
+                raise OutOfSubset('old_objects_unchanged() without allocation counter')
+            r = z3.Int('r!oo%d' % next(_fresh_counter))
+            conj = []
+            for f_ in fields:
+                key, fty = ex.heap_arr(st, cls, f_)
+                now = st.heap[key]
+                if key not in st.old.heap:
+                    continue
+                was = st.old.heap[key]
+                if now.eq(was):
+                    continue
+                conj.append(z3.ForAll([r], z3.Implies(z3.And(r > 0, r < old_cnt), now[r] == was[r]), patterns=[now[r]]))
+            return SV(T.BOOL, z3.And(*conj) if conj else z3.BoolVal(True))
         if name == 'unchanged_except':
             # unchanged_except('Class', x [, 'field', ...]): all (or the listed) fields of every other object of Class are as in old()
             cls = node.args[0].value
@@ -331,7 +358,8 @@ def eval_call(ex, node, st, want):
                 key, fty = ex.heap_arr(st, cls, f_)
                 now = st.heap[key]
                 if key not in st.old.heap:
-                    st.old.heap[key] = now
+                    # never touched between the old state and now: unchanged by construction
+                    continue
                 was = st.old.heap[key]
                 if now is was or now.eq(was):
                     continue
@@ -1002,6 +1030,10 @@ def call_contract(ex, node, st, want, method_of=None):
         if isinstance(pty, T.Fun) and isinstance(v.ty, T.Fun):
             callee_env[p] = v
             continue
+        if isinstance(v.ty, T.Opt) and pty is not None and v.ty.inner == pty:
+            # Optional passed where a value is required: obligation that it is not None here
+            ex.safety(st, z3.Not(v.ty.is_none(v.t)), 'argument-%s-not-None' % p)
+            v = SV(pty, v.ty.get(v.t))
         if pty is not None and v.ty != pty and not isinstance(pty, T.Fun):
             c = coerce(v, pty)
             if c is None:
@@ -1022,7 +1054,13 @@ def call_contract(ex, node, st, want, method_of=None):
     if ctx.mode == 'code':
         ctx.mode = 'spec'
         try:
-            for i, r in enumerate(parse_exprs(con.requires)):
+            inst_reqs = []
+            if con.instances and len(con.instances) == 1:
+                # the contract was proved only under the extra precondition of its single instance
+                inst_reqs = list(con.instances[0].get('requires', []))
+            elif con.instances and any(i_.get('requires') for i_ in con.instances):
+                raise OutOfSubset('callee %s has several instances with preconditions' % con.key)
+            for i, r in enumerate(parse_exprs(list(con.requires) + inst_reqs)):
                 g = truthy(cex.ev(r, cst))
                 cex.guards = list(ex.guards)
                 ex.oblige(st, g, 'pre', '%s#%d@L%d' % (label, i, node.lineno), text=ast.unparse(r), lineno=node.lineno)
@@ -1046,13 +1084,18 @@ def call_contract(ex, node, st, want, method_of=None):
         finally:
             ctx.mode = saved_mode
     # 2. snapshot, havoc frame
+    targets = frame_targets(ex, con, callee_self, st)
+    for cls, fld, ref in targets:
+        ex.heap_arr(st, cls, fld)          # make sure the field exists BEFORE the snapshot is taken
+    for cname in ('Defer', 'Process', 'Store', 'Engine'):
+        pass
     pre = State()
     pre.env = dict(callee_env)
     pre.heap = dict(st.heap)
     post = State()
     post.env = dict(callee_env)
     post.old = pre
-    for cls, fld, ref in frame_targets(ex, con, callee_self, st):
+    for cls, fld, ref in targets:
         key, fty = ex.heap_arr(st, cls, fld)
         newarr = z3.Const('heap!%s.%s!%d' % (key[0], key[1], next(_fresh_counter)), z3.ArraySort(T.RefSort, fty.sort()))
         if ref is not None:
@@ -1065,7 +1108,7 @@ def call_contract(ex, node, st, want, method_of=None):
             wf = fty.wf(newarr[r])
             if wf:
                 st.pc.append(z3.ForAll([r], z3.And(*wf), patterns=[newarr[r]]))
-    if con.alloc:
+    if con.alloc and ctor_cls is None:
         cnt_key = ('$alloc', 'next')
         if cnt_key not in st.heap:
             st.heap[cnt_key] = z3.Int('alloc!0')
